@@ -81,6 +81,8 @@ class NWrapView:
         self.x = getattr(obj, "x", None)
         self.y = getattr(obj, "y", None)
         self.attr_ok = attr_ok(self.el, self.kind)
+        if self.kind == "rows":
+            self.roww = sum(rep_of(c, "cells") for c in item_elements(self.el, "cells"))
 
 
 def kind_of(obj):
@@ -100,6 +102,7 @@ class NVaultView(NWrapView):
         if self.kind:
             self.rep = rep_of(self.el, "rows")
             self.pl = payload(self.el, "rows")
+            self.roww = sum(rep_of(c, "cells") for c in item_elements(self.el, "cells"))
         self.kinds = kinds
         self.snap = {}
         for kind in kinds:
